@@ -44,10 +44,12 @@
 //     counts raw bytes and m must be the largest number of leading blobs whose sizes sum to <= L
 //     (computed here, independently). Otherwise the client counts something stricter (framing, encoded
 //     size): then m is accepted if the client, given B[:m+1] alone, does not pass all m+1 on.
-//     (c) if nothing was sent although B is not empty, some blob of B must be too big by itself (raw size
-//     > L, or refused by the client when given alone) and the result must be "blob too big", count 0, no
-//     ids. Both policies for a list with an oversize blob behind a fitting prefix are accepted: refuse
-//     the whole list (what the client does today) or submit the prefix in front of it;
+//     (c) if nothing was sent although B is not empty, a blob the packing had to look at - one of the leading
+//     blobs that fit together or the first one behind them - must be too big by itself (raw size > L, or
+//     refused by the client when given alone) and the result must be "blob too big", count 0, no ids. For a
+//     list whose first non-fitting blob is oversize by itself both policies are accepted: refuse the whole
+//     list (what the client does today) or submit the prefix in front of it; an oversize blob further back
+//     justifies nothing;
 //     (d) SubmittedCount never exceeds, and on success equals, the number of blobs the backing stored in
 //     this call; the ids are the ids the backing handed out; what it stored are the first
 //     SubmittedCount blobs of B.
@@ -657,7 +659,12 @@ func (cr *caseRun) doSubmit(i int, op Op) {
 			// the client's own answer when given that blob alone).
 			refusedByClient = true
 			justified := false
-			for _, b := range blobs {
+			// only a blob the packing has to look at can justify refusing everything: one of the k leading blobs that
+			// fit together, or the first one behind them; an oversize blob further back is behind the cut either way
+			for j, b := range blobs {
+				if j > k {
+					break
+				}
 				if uint64(len(b)) > p.limit {
 					justified = true
 					break
@@ -665,7 +672,7 @@ func (cr *caseRun) doSubmit(i int, op Op) {
 			}
 			if !justified && !cr.cal.Raw {
 				for j, b := range blobs {
-					if j == 16 {
+					if j == 16 || j > k {
 						break
 					}
 					n, err := p.clientSends([][]byte{b})
@@ -679,7 +686,7 @@ func (cr *caseRun) doSubmit(i int, op Op) {
 						break
 					}
 				}
-				if !justified && len(blobs) > 16 {
+				if !justified && k >= 16 {
 					cr.inconclusive(i, "nothing was sent and none of the first 16 blobs is refused alone; the others were not probed")
 					return
 				}
